@@ -142,6 +142,17 @@ let handle (line : string) : string =
   | "S6S" :: ps -> let a = List.map (fun s -> n_of_int (int_of_string s)) ps in
     let t = spec_ipv6_serialize a in
     hex_of_str t ^ " " ^ (match spec_ipv6_parse t with Some b -> if a = b then "rt" else "nort" | None -> "nort")
+  | ["SSETR"; k; lo; n] ->
+    let k = n_of_int (int_of_string k) and lo = int_of_string lo and n = int_of_string n in
+    String.init n (fun i -> if spec_in_set k (n_of_int (lo + i)) then '1' else '0')
+  | ["MSETR"; set; lo; n] ->
+    let s = set_of set and lo = int_of_string lo and n = int_of_string n in
+    String.init n (fun i -> let c = n_of_int (lo + i) in
+      match runeShouldBeEncoded s c, runeNotInSet s c with
+      | false, false -> '0' | true, false -> '1' | false, true -> '2' | true, true -> '3')
+  | ["MDERIVE"; set; op; bits] ->
+    let s = set_of set in let r = if op = "set" then pes_set s (str_of_hex bits) else pes_clear s (str_of_hex bits) in
+    string_of_int (int_of_n r.ab) ^ "/" ^ hex_of_str (List.map n_of_int (List.sort_uniq compare (List.map int_of_n r.bits)))
   | ["SSET"; k; c] -> if spec_in_set (n_of_int (int_of_string k)) (n_of_int (int_of_string c)) then "1" else "0"
   | ["MSET"; set; c] -> let s = set_of set in let c = n_of_int (int_of_string c) in
     (if runeShouldBeEncoded s c then "1" else "0") ^ (if runeNotInSet s c then "1" else "0")
